@@ -280,7 +280,7 @@ def bounded_leaf_position_grid(tier, seed):
     encode-decode returns an equal instance (an empty string, zero, False or empty bytes is a VALUE, not an absent one)"""
     from pyopenapi_gen.core.cattrs_converter import structure_from_dict, unstructure_to_dict
     leaves = [("str", str, ["x y", ""]), ("int", int, [7, 0]), ("float", float, [1.5, 0.0]), ("bool", bool, [True, False]),
-              ("datetime", dt.datetime, ["2024-01-02T03:04:05+00:00"]), ("date", dt.date, ["2024-01-02"]), ("bytes", bytes, ["aGk=", ""]),
+              ("datetime", dt.datetime, ["2024-01-02T03:04:05+00:00", "2025-11-20T14:00:00", "2024-01-02T03:04:05.250000+02:00"]), ("date", dt.date, ["2024-01-02"]), ("bytes", bytes, ["aGk=", ""]),
               ("str-enum", Shade, ["dark", ""]), ("int-enum", Rank, [1, 0]), ("plain-enum", Color, ["red"]), ("uuid", uuid.UUID, ["12345678-1234-5678-1234-567812345678"])]
     positions = [("plain", lambda T: T, lambda v: v), ("optional", lambda T: Optional[T], lambda v: v), ("list", lambda T: List[T], lambda v: [v, v]),
                  ("map", lambda T: Dict[str, T], lambda v: {"k": v}), ("optional-list", lambda T: Optional[List[T]], lambda v: [v]),
